@@ -481,6 +481,17 @@ func (qi *QuotaInfo) IsPodExist(pod *v1.Pod) bool {
 	return exist
 }
 
+// getCachedPod returns the pod object held in the PodCache for the given pod, nil if the pod is not in the quota.
+func (qi *QuotaInfo) getCachedPod(pod *v1.Pod) *v1.Pod {
+	qi.lock.RLock()
+	defer qi.lock.RUnlock()
+
+	if podInfo, exist := qi.PodCache[generatePodCacheKey(pod)]; exist {
+		return podInfo.pod
+	}
+	return nil
+}
+
 func (qi *QuotaInfo) addPodIfNotPresent(pod *v1.Pod) {
 	qi.lock.Lock()
 	defer qi.lock.Unlock()
